@@ -120,8 +120,24 @@ impl<'r> Gen<'r> {
             17 => {
                 self.hit("ty:result");
                 self.t("result");
-                match self.r.below(4) {
+                match self.r.below(6) {
                     0 => {}
+                    4 => {
+                        self.t("<");
+                        self.t("_");
+                        if self.r.chance(1, 2) {
+                            self.t(",");
+                            self.t("_");
+                        }
+                        self.t(">");
+                    }
+                    5 => {
+                        self.t("<");
+                        self.ty(depth - 1);
+                        self.t(",");
+                        self.t("_");
+                        self.t(">");
+                    }
                     1 => {
                         self.t("<");
                         self.ty(depth - 1);
